@@ -27,6 +27,10 @@ def run_case(case, binary, shim):
         ("stdin", base, data, {}),
         ("stdin+shim", base, data, {"LD_PRELOAD": shim, "VSHIM_SEED": str(case["shim_seed"])}),
     ]
+    if case["case"] % 2 == 0:
+        # the output file exists already and is longer than the result will be
+        with open(outp, "wb") as f:
+            f.write(("古い出力 stale\n" * 20000).encode("utf-8"))
     fired = 0
     for name, cmd, stdin, extra in variants:
         env = dict(os.environ)
